@@ -12,11 +12,13 @@
    (ValueFixedModuloKnown):  taint "retarget-shared"  StoreLazy of an array whose name occurs in another live plan   (F8)
                              taint "retarget-twice"   a second lazy store of an already re-targeted array           (F9)
                              taint "name-collision"   plans merged that give one name to two different nodes        (F10)
+                             taint "prefilled-resume" compute(resume=True) finds a user target already holding data   (F13)
    hist (history variable, hidden by View) records the API calls so that behaviours can be replayed against cubed; each record
    carries tb, the taint set BEFORE the call, so that a replay failure at step k is excused only by a taint that had arisen by
    step k (the taint after step k is the tb of step k+1, or the final taint). *)
 EXTENDS Integers, Sequences, FiniteSets, TLC, Json
-CONSTANTS Procs, MaxH, Targets, MaxSteps
+CONSTANTS Procs, MaxH, Targets, MaxSteps,
+          WithResume    \* include compute(resume=True) as an API call
 VARIABLES h, ops, actr, octr, disk, bad, taint, hist
 vars == <<h, ops, actr, octr, disk, bad, taint, hist>>
 \* value tokens: <<tag, id, args>>
@@ -104,12 +106,44 @@ Compute(i) ==
      IN /\ disk' = d1 /\ bad' = (bad \/ res # h[i].val)
         /\ hist' = Append(hist, [a |-> "compute", p |-> 0, i |-> i, j |-> 0, t |-> IF res # h[i].val THEN 1 ELSE 0, tb |-> taint])
   /\ UNCHANGED <<h, ops, actr, octr, taint>>
+\* compute(resume=True): plan.py already_computed marks an operation as computed when its output is complete IN STORAGE, whoever
+\* wrote it; such operations are skipped.  A target that already holds another array's values (an earlier store into the same
+\* user target) therefore keeps them: taint "prefilled-resume" (finding F13, as in DagExec.StaleByF13).
+RECURSIVE RunOpsResume(_, _, _)
+RunOpsResume(nodes, todo, d) ==
+  IF todo = {} THEN d
+  ELSE LET ready == {n \in todo : \A r \in 1..Len(ops[nodes[n].obj].reads) :
+                         ~(\E m \in todo : nodes[m].out = ops[nodes[n].obj].reads[r][1])} IN
+       IF ready = {} THEN d
+       ELSE LET n == CHOOSE x \in ready : TRUE
+                ob == ops[nodes[n].obj]
+                Rd(r) == LET z == ob.reads[r][2] IN
+                         IF z[1] = "virt" THEN Tok("in", z[2] * 100 + z[3], <<>>) ELSE IF Has(d, z) THEN Get(d, z) ELSE Missing
+                v == Tok("f", ob.fid, [r \in 1..Len(ob.reads) |-> Rd(r)])
+                skip == Has(disk, ob.wtarget) /\ Get(disk, ob.wtarget) # Fill      \* complete before this computation started
+            IN RunOpsResume(nodes, todo \ {n}, IF skip THEN d ELSE Put(d, ob.wtarget, v))
+ComputeResume(i) ==
+  /\ DOMAIN disk # {}      \* something was computed before (otherwise resume is a plain compute)
+  /\ LET nodes == h[i].nodes
+         lazies == {nodes[n].target : n \in {m \in DOMAIN nodes : nodes[m].kind = "array" /\ nodes[m].target[1] \in {"lazy", "user"}}}
+         opn == {n \in DOMAIN nodes : nodes[n].kind = "op"}
+         d1 == RunOpsResume(nodes, opn, CreateAll(lazies, disk))
+         res == IF h[i].zarr[1] = "virt" THEN h[i].val ELSE IF Has(d1, h[i].zarr) THEN Get(d1, h[i].zarr) ELSE Missing
+         \* a skipped operation whose stored output is not what a plain compute of this plan would leave there
+         dplain == RunOps(nodes, opn, CreateAll(lazies, disk))
+         stale == \E n \in opn : LET z == ops[nodes[n].obj].wtarget IN
+                      z[1] = "user" /\ Has(disk, z) /\ Get(disk, z) # Fill /\ Get(disk, z) # Get(dplain, z)
+     IN /\ disk' = d1 /\ bad' = (bad \/ res # h[i].val)
+        /\ taint' = taint \cup (IF stale THEN {"prefilled-resume"} ELSE {})
+        /\ hist' = Append(hist, [a |-> "computeresume", p |-> 0, i |-> i, j |-> 0, t |-> IF res # h[i].val THEN 1 ELSE 0, tb |-> taint])
+  /\ UNCHANGED <<h, ops, actr, octr>>
 Next == \/ \E p \in Procs : NewInput(p, PIdOf[p])
         \/ \E p \in Procs : \E i \in 1..Len(h) : Derive(p, PIdOf[p], <<i>>)
         \/ \E p \in Procs : \E i, j \in 1..Len(h) : Derive(p, PIdOf[p], <<i, j>>)
         \/ \E i \in 1..Len(h), q \in Procs : Ship(i, q)
         \/ \E i \in 1..Len(h), t \in Targets : StoreLazy(i, t) \/ StoreAgain(i, t)
         \/ \E i \in 1..Len(h) : Compute(i)
+        \/ (WithResume /\ \E i \in 1..Len(h) : ComputeResume(i))
 Bounded == Len(hist) < MaxSteps
 BNext == Bounded /\ Next
 Spec == Init /\ [][BNext]_vars
